@@ -35,7 +35,9 @@ FactKey(f) == <<f[1], f[2], f[3], f[4], f[5]>>
 Thr(OA, OB) ==
   (IF ~(B!KeysIn(OB) \subseteq A!KeysIn(OA)) THEN {"C12.keys"} ELSE {}) \cup
   (IF ~({s.key : s \in OB} \subseteq {s.key : s \in OA}) THEN {"C12.shapes"} ELSE {}) \cup
-  (IF \E f \in A!Facts(OA), g \in B!Facts(OB) : FactKey(f) = FactKey(g) /\ f[6] # g[6] THEN {"C12.figures"} ELSE {}) \cup
+  (IF \E f \in A!Facts(OA), g \in B!Facts(OB) : FactKey(f) = FactKey(g) /\ f[6] # g[6] /\ f[4] # "NONLITERAL" THEN {"C12.figures"} ELSE {}) \cup
+  \* the figure of a merged IRI+BNode line is the sum of whatever statements were selected at that threshold (known finding)
+  (IF \E f \in A!Facts(OA), g \in B!Facts(OB) : FactKey(f) = FactKey(g) /\ f[6] # g[6] /\ f[4] = "NONLITERAL" THEN {"KF.C12.nlsum"} ELSE {}) \cup
   (IF \E x \in A!Heads(OA), y \in B!Heads(OB) : x[1] = y[1] /\ x[2] # y[2] THEN {"C12.counts"} ELSE {})
 
 \* ---- option relations (C13)
